@@ -16,7 +16,8 @@
  *     every observable (type, dimensions, frequencies, cells, z0 mode and
  *     values, file type, format string).
  *   - failure: -1, errno per vnaerr(3) (EBADMSG / ENOPROTOOPT / system errno in
- *     category SYSTEM), >= 1 non-warning callback; the destination can still be
+ *     category SYSTEM), >= 1 non-warning callback; a file that opens with an
+ *     unsupported version declaration fails with ENOPROTOOPT (category VERSION); the destination can still be
  *     queried through every getter, re-initialised and freed.
  *   - success: no non-warning callback; type defined and dimensions legal for
  *     it (own rule table below), every frequency / cell / z0 readable through
@@ -125,6 +126,82 @@ static bool declares_huge(const uint8_t *d, size_t n)
 	    return true;
     }
     return false;
+}
+
+/* -------------------------------------------------------- version oracle */
+/*
+ * Does the file open with a version declaration the library does not support?
+ * vnaerr(3): such a file is a VNAERR_VERSION error, errno ENOPROTOOPT.  Only the
+ * case where the declaration is the very first thing in the file is decided
+ * (nothing else can have gone wrong before it); everything else returns false.
+ */
+static bool opens_with_unsupported_version(int ext, const uint8_t *d, size_t n)
+{
+    const uint8_t *p = d, *end = d + n;
+    char word[64];
+
+    if (ext != 5) {		/* Touchstone: [Version] <word>, comments start with '!' */
+	for (;;) {
+	    while (p < end && isspace(*p))
+		++p;
+	    if (p < end && *p == '!') {
+		while (p < end && *p != '\n')
+		    ++p;
+		continue;
+	    }
+	    break;
+	}
+	if ((size_t)(end - p) < 9 || strncasecmp((const char *)p, "[version]", 9) != 0)
+	    return false;
+	p += 9;
+	if (!ts_next_word(p, end, word, sizeof(word)) || strlen(word) >= sizeof(word) - 1)
+	    return false;
+	{	/* the scanner only starts a word at an alphanumeric, '+', '-' or '.' */
+	    const uint8_t *q = p;
+
+	    for (;;) {
+		while (q < end && isspace(*q))
+		    ++q;
+		if (q < end && *q == '!') {
+		    while (q < end && *q != '\n')
+			++q;
+		    continue;
+		}
+		break;
+	    }
+	    if (q >= end || !(isalnum(*q) || *q == '+' || *q == '-' || *q == '.'))
+		return false;
+	    if (*q >= 0x80)
+		return false;
+	}
+	return strcmp(word, "2.0") != 0 && strcmp(word, "1.0") != 0;
+    }
+    /* NPD: first record "#:version <arg>"; blank lines and '#' comments (not "#:<letter>") before it */
+    for (;;) {
+	while (p < end && isascii(*p) && isspace(*p))
+	    ++p;
+	if (p >= end || *p != '#')
+	    return false;
+	if (p + 2 < end && p[1] == ':' && isalpha(p[2]))
+	    break;
+	while (p < end && *p != '\n')
+	    ++p;
+    }
+    if ((size_t)(end - p) < 10 || memcmp(p, "#:version", 9) != 0 || !(isascii(p[9]) && isspace(p[9])) || p[9] == '\n')
+	return false;
+    p += 9;
+    while (p < end && isascii(*p) && isspace(*p) && *p != '\n')
+	++p;
+    {
+	size_t k = 0;
+
+	while (p < end && k + 1 < sizeof(word) && !(isascii(*p) && isspace(*p)))
+	    word[k++] = (char)*p++;
+	word[k] = '\0';
+	if (k == 0 || k + 1 >= sizeof(word) || word[0] == '#' || memchr(word, 0, k) != NULL)
+	    return false;
+    }
+    return strcmp(word, "1.0") != 0;
 }
 
 /* ------------------------------------------------------------- rule table */
@@ -386,6 +463,11 @@ int LLVMFuzzerTestOneInput(const uint8_t *data, size_t size)
 	bool after_data = false;
 
 	fz_check_failure("vnadata_fload", erra, &ela);
+	if (opens_with_unsupported_version(ext, file, fsize) && erra != ENOMEM) {
+	    FZ_CHECK(erra == ENOPROTOOPT && ela.el_last_category == VNAERR_VERSION, "C09.unsupported_version_not_reported_as_version",
+		    "%s opens with an unsupported version but the failure is category %d, errno %d (%s): %s", name,
+		    ela.el_last_category, erra, strerror(erra), ela.el_last);
+	}
 	if (rcb == -1)
 	    fz_check_failure("vnadata_fload (second destination)", errb, &elb);
 	/* the destinations are still usable */
@@ -423,6 +505,8 @@ int LLVMFuzzerTestOneInput(const uint8_t *data, size_t size)
     }
 
     /* success */
+    FZ_CHECK(!opens_with_unsupported_version(ext, file, fsize), "C09.unsupported_version_accepted",
+	    "%s opens with an unsupported version but was loaded", name);
     fz_check_success("vnadata_fload", &ela);
     if (rcb == 0)
 	fz_check_success("vnadata_fload (second destination)", &elb);
